@@ -309,7 +309,7 @@ theorem unexpired_of_refresh {tr : Trace} {endT : Int} (hwf : WFP tr endT)
     have hupb : upAt tr b.host tb = true := hwf.browse_up _ hb
     have htb : tb ≤ lastChange tr := le_lastChange (mem_browses.mp hb) rfl
     have hreg := hA.regBase
-    by_cases hcase : tb + 120 + 14000 + 10000 ≤ x.t + 750 * e
+    by_cases hcase : tb + 120 + 14000 + 10000 + 999 ≤ x.t + 750 * e
     · -- the browser had finished its start-up phase when x reached 75 % of its life
       have w1 := refreshWindow_early hcase false
       have w2 := refreshWindow_early hcase true
